@@ -6,10 +6,10 @@
     the code really maintains once Context::DeleteCandidate looks the
     candidate up first ([cf_del_checked cfg = true]); every function of
     Engine.v / Procs.v / Api.v preserves it, whatever the arguments. *)
-From Coq Require Import List Arith NArith ZArith Bool Lia.
+From Coq Require Import List Arith NArith ZArith Bool Lia ZifyBool ZifyNat ZifyN.
 From Coq.Strings Require Import Byte.
 From RimeV Require Import Base.Bytes Base.ListX Eng.Keys Eng.Cand Eng.Menu Eng.Segm Eng.Ctx Eng.Engine Eng.Procs
-     Eng.Api Eng.Spec.
+     Eng.Api Eng.Spec Eng.WfView.
 Import ListNotations.
 
 Section Wf.
@@ -778,5 +778,92 @@ Qed.
 
 Lemma init_inv : sinv (init_state cfg).
 Proof. split; cbn; [lia | constructor]. Qed.
+
+(** ---- everything [view_of] reports is well-formed ---- *)
+Ltac Zify.zify_post_hook ::= Z.div_mod_to_equations.
+
+
+(** ---- RimeGetContext's page arithmetic ---- *)
+Lemma menu_view_wf c mo :
+  cinv c -> fst (menu_view cfg c) = Some mo ->
+  wf_menub mo (match sg_segs (cx_comp c) with [] => None | g :: _ => Some (s_sel g) end) = true.
+Proof.
+  intros H. unfold menu_view. destruct (negb (has_menu c)) eqn:Ehm; [discriminate|].
+  destruct (sg_segs (cx_comp c)) as [|g r] eqn:E; [discriminate|].
+  destruct (s_menu g) as [m|] eqn:Em; [|discriminate].
+  assert (Hne : m <> []).
+  { unfold has_menu, sg_back in Ehm. rewrite E in Ehm. cbn in Ehm. rewrite Em in Ehm. destruct m; [discriminate | discriminate]. }
+  destruct (sel_small g m (back_inv c g r H E) Em Hne) as (Hi & Hlt & Hb). unfold menu_bounded in Hb.
+  rewrite Hi. set (ps := cf_page_size cfg) in *. set (sel := Z.of_N (s_sel g)) in *.
+  assert (Hsel0 : (0 <= sel)%Z) by (subst sel; lia).
+  rewrite Z.quot_div_nonneg, Z.rem_mod_nonneg by lia.
+  assert (Hq : (0 <= sel / ps)%Z) by (apply Z.div_pos; lia).
+  assert (Hqle : (ps * (sel / ps) <= sel)%Z) by (apply Z.mul_div_le; lia).
+  rewrite (size_of_int_small ps), (size_of_int_small (sel / ps)) by lia.
+  unfold create_page, menu_count.
+  assert (Hstart : size_wrap (Z.to_N ps * Z.to_N (sel / ps)) = Z.to_N (ps * (sel / ps))).
+  { rewrite size_wrap_small; lia. }
+  rewrite Hstart. set (start := Z.to_N (ps * (sel / ps))).
+  assert (Hend : size_wrap (start + Z.to_N ps) = (start + Z.to_N ps)%N) by (apply size_wrap_small; subst start; lia).
+  rewrite Hend.
+  assert (Hmod : (sel mod ps = sel - ps * (sel / ps))%Z) by (rewrite Z.mod_eq by lia; reflexivity).
+  assert (Hmodb : (0 <= sel mod ps < ps)%Z) by (apply Z.mod_pos_bound; lia).
+  destruct (N.of_nat (length m) <? start + Z.to_N ps)%N eqn:E1.
+  - apply N.ltb_lt in E1.
+    replace (N.of_nat (length m) <=? start)%N with false by (symmetry; apply N.leb_gt; subst start; lia).
+    cbn [fst]. intros Hmo. injection Hmo as <-. unfold wf_menub.
+    cbn [mo_hl mo_cands mo_page_size mo_page_no pg_cands]. rewrite skipn_length.
+    apply andb_true_iff. split; [|apply Z.eqb_eq; subst sel; lia].
+    repeat (apply andb_true_iff; split); try apply Z.leb_le; try apply Z.ltb_lt; subst start; lia.
+  - apply N.ltb_ge in E1.
+    replace (start + Z.to_N ps <=? start)%N with false by (symmetry; apply N.leb_gt; lia).
+    cbn [fst]. intros Hmo. injection Hmo as <-. unfold wf_menub.
+    cbn [mo_hl mo_cands mo_page_size mo_page_no pg_cands]. rewrite firstn_length, skipn_length.
+    apply andb_true_iff. split; [|apply Z.eqb_eq; subst sel; lia].
+    repeat (apply andb_true_iff; split); try apply Z.leb_le; try apply Z.ltb_lt; subst start; lia.
+Qed.
+
+Lemma view_wf s : sinv s -> wf_viewb (fst (view_of cfg s)) = true.
+Proof.
+  intros H. unfold view_of.
+  destruct (ctx_commit_text (st_ctx s)) as [pv ok2].
+  pose proof (menu_view_wf (st_ctx s)) as Hm. destruct (menu_view cfg (st_ctx s)) as [mv ok3]. cbn [fst] in *.
+  unfold wf_viewb. cbn [v_caret v_input v_composing v_preedit v_menu v_sel].
+  repeat (apply andb_true_iff; split).
+  - apply Nat.leb_le, H.
+  - destruct (is_composing (st_ctx s)) eqn:Ec; [reflexivity|]. cbn [orb].
+    unfold is_composing in Ec. apply orb_false_iff in Ec as (E1 & E2).
+    destruct (cx_input (st_ctx s)); [|discriminate]. cbn [andb].
+    destruct mv as [mo|]; [|reflexivity]. exfalso.
+    (* a menu needs a segment *)
+    unfold sg_empty in E2. destruct (sg_segs (cx_comp (st_ctx s))) eqn:Es; [|discriminate].
+    specialize (Hm mo H eq_refl). unfold wf_menub in Hm. rewrite !andb_false_r in Hm. discriminate.
+  - destruct (is_composing (st_ctx s)); [|reflexivity]. unfold ctx_preedit. apply comp_preedit_wf.
+  - destruct mv as [mo|]; [|reflexivity]. apply (Hm mo H eq_refl).
+Qed.
+
+(** ---- all histories ---- *)
+Lemma step_wf s o : sinv s -> wf_obsb (snd (step cfg translate s o)) = true.
+Proof.
+  intros H. unfold step. destruct (cx_err (st_ctx s)); [reflexivity|].
+  pose proof (exec_inv s o H) as H1.
+  destruct (exec cfg translate s o) as [s1 r]. cbn [fst] in H1.
+  pose proof (view_wf s1 H1) as Hv. destruct (view_of cfg s1) as [v ve]. cbn [fst] in Hv.
+  destruct (cx_err (st_ctx (match ve with Some e => st_with_ctx s1 (ctx_fail (st_ctx s1) e) | None => s1 end)));
+    [reflexivity | exact Hv].
+Qed.
+
+Lemma run_from_wf ops : forall s, sinv s -> forallb wf_obsb (snd (run_from cfg translate s ops)) = true.
+Proof.
+  induction ops as [|o r IH]; intros s H; [reflexivity|]. cbn [run_from].
+  pose proof (step_wf s o H) as Hw. pose proof (step_inv s o H) as Hi.
+  destruct (step cfg translate s o) as [s1 ob]. cbn [fst snd] in *.
+  specialize (IH s1 Hi). destruct (run_from cfg translate s1 r) as [s2 obs]. cbn [snd forallb] in *.
+  now rewrite Hw, IH.
+Qed.
+
+Theorem wf_reported ops : forallb wf_obsb (snd (run cfg translate ops)) = true.
+Proof. apply run_from_wf, init_inv. Qed.
+
 
 End Wf.
